@@ -180,6 +180,9 @@ type HealCfg struct {
 	Restarts int  `json:"restarts,omitempty"`
 	Blocks   int  `json:"blocks,omitempty"` // extra blocks to mine (bursts)
 	Seconds  int  `json:"seconds,omitempty"`
+	// Canary: at the very end register a fresh transaction with every real node's
+	// own chain watchers and require a report (C18: notification handling alive)
+	Canary bool `json:"canary,omitempty"`
 }
 
 func (p *Plan) JSON() []byte {
